@@ -65,15 +65,36 @@ fn seg_strategy() -> impl Strategy<Value = SegSpec> {
     (seg_bytes_strategy(), proptest::collection::vec(0u8..4, 6)).prop_map(|(bytes, enc)| SegSpec { bytes, enc })
 }
 
+/// segment lists: mostly short; sometimes deep (plain filler segments with a few interesting ones
+/// placed anywhere), because nothing in the statement bounds the depth of a path
+fn segs_strategy() -> impl Strategy<Value = Vec<SegSpec>> {
+    let filler = ("[a-z0-9]{1,3}", proptest::collection::vec(0u8..4, 6)).prop_map(|(s, enc)| SegSpec { bytes: s.into_bytes(), enc });
+    let deep = (proptest::collection::vec(filler, 6..90), proptest::collection::vec((any::<u16>(), seg_strategy()), 0..4)).prop_map(|(mut v, specials)| {
+        for (at, s) in specials {
+            let i = pick_idx(at, v.len() + 1);
+            v.insert(i, s);
+        }
+        v
+    });
+    prop_oneof![17 => proptest::collection::vec(seg_strategy(), 0..6), 3 => deep]
+}
+
+fn slash_run() -> impl Strategy<Value = u8> {
+    prop_oneof![12 => 1u8..4, 1 => 4u8..48]
+}
+fn edge_run() -> impl Strategy<Value = u8> {
+    prop_oneof![12 => 0u8..3, 1 => 3u8..48]
+}
+
 pub fn path_case_strategy() -> impl Strategy<Value = PathCase> {
     (
-        proptest::collection::vec(seg_strategy(), 0..6),
-        proptest::collection::vec(1u8..4, 6),
-        0u8..3,
-        0u8..3,
-        proptest::collection::vec(1u8..4, 6),
-        0u8..3,
-        0u8..3,
+        segs_strategy(),
+        proptest::collection::vec(slash_run(), 6),
+        edge_run(),
+        edge_run(),
+        proptest::collection::vec(slash_run(), 6),
+        edge_run(),
+        edge_run(),
         prop_oneof![9 => Just(None), 1 => any::<(u16, u8)>().prop_map(Some)],
     )
         .prop_map(|(segs, slashes, lead, trail, slashes2, lead2, trail2, malformed)| PathCase {
@@ -232,6 +253,10 @@ fn classify(c: &PathCase, raw: &str, st: &mut Stats) -> bool {
     }
     if c.malformed.is_some() && !c.segs.is_empty() {
         st.count("malformed_escape");
+    }
+    if raw.split('/').count() > 32 {
+        st.count("deep_32plus_pieces");
+        nontrivial = true;
     }
     nontrivial
 }
@@ -425,7 +450,7 @@ fn check_live(live: &Live, rt: &tokio::runtime::Runtime, cases: &Vec<PathCase>, 
 }
 
 pub fn run(ctx: &mut Ctx) {
-    ctx.rule = "paths = 0-5 segments over the full byte range (biased to dots, '%', '/', NUL, UTF-8 and broken UTF-8), every byte rendered raw or as %hh in lower/upper/mixed hex, 1-3 slashes between segments and extra leading/trailing slashes; oracle = reference normaliser (split, drop empty, decode once, refuse dot/non-UTF-8) against a wildcard table and a literal/variable table, plus slash-variant metamorphic relation. non-trivial = path with a dot-segment in an encoded spelling, an encoded slash, a non-UTF-8 segment or a %25 double encoding; distinct by raw path".into();
+    ctx.rule = "paths = 0-5 segments (15%: 6-93 segments, mostly plain filler with up to 3 interesting ones anywhere) over the full byte range (biased to dots, '%', '/', NUL, UTF-8 and broken UTF-8), every byte rendered raw or as %hh in lower/upper/mixed hex, 1-3 (sometimes up to 47) slashes between segments and 0-2 (sometimes up to 47) extra leading/trailing slashes; oracle = reference normaliser (split, drop empty, decode once, refuse dot/non-UTF-8) against a wildcard table and a literal/variable table, plus slash-variant metamorphic relation. non-trivial = path with a dot-segment in an encoded spelling, an encoded slash, a non-UTF-8 segment, a %25 double encoding or more than 32 slash-separated pieces; distinct by raw path".into();
     ctx.assume("for malformed percent escapes only 'no 5xx / no panic' is asserted (the statement is silent on them)");
     ctx.assume("over the wire every byte outside the URI path character set is percent-encoded; targets hyper refuses by itself are not judged");
     // inputs saved by the libFuzzer target fuzz/fuzz_targets/c03_path.rs (replayed, never generated here)
@@ -436,6 +461,7 @@ pub fn run(ctx: &mut Ctx) {
     ctx.require_frac("inproc", "non_utf8", "paths", 0.05);
     ctx.require_frac("inproc", "encoded_slash", "paths", 0.03);
     ctx.require_frac("inproc", "expect_ok", "paths", 0.15);
+    ctx.require_frac("inproc", "deep_32plus_pieces", "paths", 0.08);
 
     let live = {
         let _g = ctx.rt.enter();
